@@ -129,7 +129,17 @@ def gen_thin(r, cap, length, keymax):
     return ops[:length]
 
 
-REQUIRED_THEOREMS = []
+REQUIRED_THEOREMS = [
+    "TapkeeVerif.FibHeap.inv_reachable",
+    "TapkeeVerif.FibHeap.min_root_minimal",
+    "TapkeeVerif.FibHeap.refines_map",
+    "TapkeeVerif.FibHeap.no_corrupt",
+    "TapkeeVerif.FibHeap.no_oob",
+    "TapkeeVerif.FibHeap.no_oob_of_fib",
+    "TapkeeVerif.FibHeap.run_total",
+    "TapkeeVerif.FibHeap.carry_fuel_adequate",
+    "TapkeeVerif.FibHeap.dnOf_fuel_adequate",
+]
 GENS = [("uniform", gen_uniform), ("guards", gen_guards), ("dijkstra", gen_dijkstra), ("thin", gen_thin)]
 
 
